@@ -574,6 +574,10 @@ def polar_map(
     """Polar map of polar histograms.
 
     Similar to map, but supports less parameters."""
+    # (The title: the histogram's own unless one is given - as in every other plot type)
+    title = kwargs.pop("title", hist.title)
+    if title:
+        ax.set_title(title)
     data = get_data(hist, flatten=True, density=kwargs.pop("density", False))
 
     cmap = _get_cmap(kwargs)
@@ -624,6 +628,10 @@ def globe_map(
     **kwargs,
 ):
     """Heat map plotted on the surface of a sphere."""
+    # (The title: the histogram's own unless one is given - as in every other plot type)
+    title = kwargs.pop("title", hist.title)
+    if title:
+        ax.set_title(title)
     data = get_data(hist, density=kwargs.pop("density", False))
 
     cmap = _get_cmap(kwargs)
@@ -666,6 +674,10 @@ def cylinder_map(
     **kwargs,
 ) -> None:
     """Heat map plotted on the surface of a cylinder."""
+    # (The title: the histogram's own unless one is given - as in every other plot type)
+    title = kwargs.pop("title", hist.title)
+    if title:
+        ax.set_title(title)
     data = get_data(hist, density=kwargs.pop("density", False))
 
     cmap = _get_cmap(kwargs)
@@ -733,6 +745,10 @@ def surface_map(
     --------
     map, cylinder_map, globe_map
     """
+    # (The title: the histogram's own unless one is given - as in every other plot type)
+    title = kwargs.pop("title", hist.title)
+    if title:
+        ax.set_title(title)
     data = get_data(hist, density=kwargs.pop("density", False))
 
     cmap = _get_cmap(kwargs)
